@@ -176,6 +176,12 @@ def check(case):
                                     % (label, nsteps, np.abs(prop.mean(0) - held.mean(0)).max(),
                                        np.abs(indep.pair_distances(prop) - indep.pair_distances(held)).max()),
                                     cls="proposal-kind:%s" % "".join(map(str, sorted(deform))))
+        if how == "atom-move":
+            for (a, b), L in zip(edges, case["lengths"]):
+                dab = float(np.linalg.norm(prop[a] - prop[b]))
+                if not abs(dab - L) <= 1e-9 * max(L, 1e-3):
+                    raise PropertyViolation("bond-preserving-move", "%s: step %d: the single-atom move leaves bond "
+                                            "%d-%d at %.12g, the bond table says %.12g" % (label, nsteps, a, b, dab, L))
         moves[how] = moves.get(how, 0) + 1
         if e_new <= e_held and not dec:
             raise PropertyViolation("always-accept-better", "%s: step %d: proposal with measure %.12g <= held %.12g "
